@@ -549,6 +549,49 @@ func scenSigMut(rep *Report, tier string, seed int64) {
 				add(kind, e)
 			}
 		}
+		// batches that name ANOTHER address as the input of one of their transactions while
+		// carrying only the signer's signature: first, last, middle, or the only transaction (and,
+		// with both signatures present, two input addresses in one batch, which the format forbids)
+		{
+			var victim Key
+			var vAsset fat2.PTicker
+			for _, u := range g.Users {
+				if u.FA() == signer.FA() {
+					continue
+				}
+				for _, t := range w.NonZeroAssets(u.FA()) {
+					if w.Balance(u.FA(), t) > 100 {
+						victim, vAsset = u, t
+						break
+					}
+				}
+				if vAsset != fat2.PTickerInvalid {
+					break
+				}
+			}
+			if vAsset != fat2.PTickerInvalid {
+				own := func(k uint64) fat2.Transaction {
+					return Transfer(signer.FA(), asset, fat2.AddressAmountTuple{Address: dst, Amount: 1 + k})
+				}
+				steal := Transfer(victim.FA(), vAsset, fat2.AddressAmountTuple{Address: signer.FA(), Amount: w.Balance(victim.FA(), vAsset) / 2})
+				mk := func(kind string, txs []fat2.Transaction, signers ...factom.RCDSigner) {
+					content, _ := json.Marshal(struct {
+						Version      uint               `json:"version"`
+						Transactions []fat2.Transaction `json:"transactions"`
+					}{1, txs})
+					add(kind, SignBatch(content, EntryTime(h).Unix()+int64(len(kinds)%200), signers...))
+				}
+				mk("foreign-input:last", []fat2.Transaction{own(1), steal}, signer.Signer())
+				mk("foreign-input:first", []fat2.Transaction{steal, own(2)}, signer.Signer())
+				mk("foreign-input:middle", []fat2.Transaction{own(3), steal, own(4)}, signer.Signer())
+				mk("foreign-input:last-of-three", []fat2.Transaction{own(5), own(6), steal}, signer.Signer())
+				mk("foreign-input:only", []fat2.Transaction{steal}, signer.Signer())
+				if !(victim.IsE && h <= s.Acts.RCDE) {
+					mk("two-input-addresses:both-signed", []fat2.Transaction{own(7), steal}, signer.Signer(), victim.Signer())
+				}
+				rep.Count("sigmut:foreign-input-batches")
+			}
+		}
 		entries := append([]factom.Entry{orig}, muts...)
 		b := &BlockSpec{Height: h, Time: BlockTime(h), TX: entries}
 		b.OPR = g.OPRSet(h, OPRVersionAt(s.Acts, h), w.LastShortHashes(h), 25, g.Rates, nil)
